@@ -583,6 +583,39 @@ theorem declared_certificate_accepted (vals : Int → List Nat) (self : Nat) (ev
       rw [hview]; exact List.length_pos_of_mem hmem
     exact ⟨nd', es, hnd, hes, hacc, hnc, XV.C14.qc_needs_quorum_no_collector_entry self _ es hn hnc hacc⟩
 
+/-- What the node puts into its next proposal message (`ProcessProposal` → `reloadJustifyQC`) and what
+`GetCompleteHighQC` answers are the same votes: the log stored for HighQC. -/
+theorem nextJustify_is_cert (s : State) (id : Nat) (es : List Entry) (h : nextJustify s = some (id, es))
+    (hid : id ≠ 0) : cert s = (id, es) := by
+  unfold nextJustify at h
+  split at h
+  · simp only [Option.some.injEq, Prod.mk.injEq] at h; exact absurd h.1.symm hid
+  · cases hl : logOf s.log s.high.id with
+    | none => simp [hl] at h
+    | some es' =>
+      simp only [hl, Option.map_some, Option.some.injEq, Prod.mk.injEq] at h
+      obtain ⟨h1, h2⟩ := h
+      subst h1 h2
+      simp [cert, hl]
+
+/-- After ANY history: when a vote message declares the quorum for proposal `m.id` and HighQC moves there,
+the justify of the node's next proposal message names that proposal and carries votes that `CheckProposal`
+accepts against the validator set of the proposal's view — valid signatures of a quorum of distinct members
+besides the collector. -/
+theorem declared_next_proposal_carries_quorum (vals : Int → List Nat) (self : Nat) (evs : List Ev) (m : VoteMsg)
+    (h : (handleVote vals (run vals (init self) evs) m).2.2 = true)
+    (hmove : (handleVote vals (run vals (init self) evs) m).1.high.id = m.id) (hid : m.id ≠ 0) :
+    ∃ nd es, lookup (run vals (init self) evs) m.id = some nd ∧
+      nextJustify (handleVote vals (run vals (init self) evs) m).1 = some (m.id, es) ∧
+      checkProposal (vals nd.view) es = .accept ∧
+      quorum (vals nd.view).length ≤ (validMembersBut self (vals nd.view) es).length := by
+  obtain ⟨nd, es, hnd, hes, hacc, _, hq⟩ := declared_certificate_accepted vals self evs m h
+  refine ⟨nd, es, hnd, ?_, hacc, hq⟩
+  unfold nextJustify
+  rw [hmove]
+  have : (m.id == 0) = false := by simpa using hid
+  simp [this, hes]
+
 /-! ### the receiving side: a proposal message moves HighQC to the proposal its justify certifies -/
 
 theorem inTree_append (ns l : List Node) (k id : Nat) (h : inTree ns k id = true) :
